@@ -155,6 +155,21 @@ static void case_random(vh_rng* r, long index) {
         snprintf(opd, sizeof opd, "closed-file probes");
         closed_file_ops(f, "while closed");
       }
+    } else if ((roll < 6 && !R.writable) || (roll >= 40 && roll < 46 && !R.readable)) {
+      /* an operation the stream's mode does not allow, on an OPEN File: it raises IOError, transfers nothing, and leaves
+         the stream's error indicator set -- from then on seof must still say what feof says (not "error or end"),
+         stell what ftell says, and everything still there stays readable */
+      static unsigned char rb[64];
+      int is_write = !R.writable && roll < 6;
+      size_t n = 1 + vh_below(r, 40);
+      snprintf(opd, sizeof opd, "%s(%zu bytes) on a stream opened %s", is_write ? "swrite" : "sread", n, is_write ? "read-only" : "write-only");
+      vh_op("%s", opd);
+      if (is_write) { if (R.last_was_read) { sseek(f, (int64_t)R.pos, SEEK_SET); R.last_was_read = 0; R.eof = 0; } VH_CATCH(swrite(f, rb, n), exc); }
+      else { if (R.last_was_write) { sflush(f); if (R.append) { R.pos = dlen; } R.last_was_write = 0; } VH_CATCH(sread(f, rb, n), exc); }
+      vh_eval();
+      if (exc != IOError) { vh_violation("C20:refused:operation-the-mode-forbids-did-not-raise-ioerror", "%s gave %s", opd, vh_exc_name(exc)); break; }
+      vh_count(is_write ? "writes_refused_by_the_mode" : "reads_refused_by_the_mode");
+      if (ferror(((struct File*)f)->file)) { vh_count("operations_checked_with_the_error_indicator_set"); }
     } else if (roll < 30 && R.writable) {
       /* swrite in random chunkings, zero bytes included */
       if (R.last_was_read) { sseek(f, (int64_t)R.pos, SEEK_SET); R.last_was_read = 0; R.eof = 0; }
